@@ -42,14 +42,62 @@ def alone(data):
     return _ALONE[key]
 
 
+_OVER = {}
+
+
+def overversion(i):
+    """Corpus stream i re-serialised with every sequence header declaring major_version + 1 (extended transform
+    parameters added with both flags clear when that crosses into version 3)."""
+    if i not in _OVER:
+        import copy
+
+        from vc2_conformance import bitstream as B
+
+        d = copy.deepcopy(C.descriptions()[i])
+        for seq in d["sequences"]:
+            old = None
+            for du in seq["data_units"]:
+                if "sequence_header" in du:
+                    pp = du["sequence_header"]["parse_parameters"]
+                    old = pp["major_version"]
+                    pp["major_version"] = old + 1
+                tp = None
+                if "picture_parse" in du:
+                    tp = du["picture_parse"]["wavelet_transform"]["transform_parameters"]
+                elif "fragment_parse" in du and "transform_parameters" in du["fragment_parse"]:
+                    tp = du["fragment_parse"]["transform_parameters"]
+                if tp is not None and old is not None and old < 3 <= old + 1 and "extended_transform_parameters" not in tp:
+                    tp["extended_transform_parameters"] = B.ExtendedTransformParameters(
+                        asym_transform_index_flag=False, asym_transform_flag=False)
+                    # two more bits: the byte-alignment paddings recorded by the deserialiser no longer fit
+                    for holder in (du.get("picture_parse", {}), du.get("picture_parse", {}).get("wavelet_transform", {}),
+                                   du.get("fragment_parse", {})):
+                        for key in [k for k in holder if isinstance(k, str) and k.startswith("padding")]:
+                            del holder[key]
+            for du in seq["data_units"]:
+                from vc2_conformance.bitstream.vc2_autofill import AUTO
+
+                du["parse_info"].pop("padding", None)  # alignment before each parse_info is recomputed
+                du["parse_info"]["next_parse_offset"] = AUTO
+                du["parse_info"]["previous_parse_offset"] = AUTO
+        _OVER[i] = S.serialise_stream(d)
+    return _OVER[i]
+
+
 @st.composite
 def members(draw):
     n = draw(st.integers(1, 5))
     out = []
-    mutant_at = draw(st.integers(0, n - 1)) if draw(st.integers(0, 2)) == 0 else None
+    # later positions are the interesting ones (leaked state needs predecessors): small draws map to the end
+    mutant_at = (n - 1 - draw(st.integers(0, n - 1))) if draw(st.integers(0, 2)) == 0 else None
     corp = C.corpus()
     for k in range(n):
-        if k == mutant_at:
+        if k == mutant_at and draw(st.booleans()):
+            # a member that is non-conformant by ONE sequence-level rule whose bookkeeping must not leak between
+            # sequences: major_version one higher than its own features need
+            i = draw(st.integers(0, len(corp) - 1))
+            out.append(("overversion:" + corp[i]["name"], overversion(i), ["major_version+1"]))
+        elif k == mutant_at:
             i = draw(st.integers(0, len(corp) - 1))
             data, ops = draw(M.bitfield_mutate(i))
             out.append(("mutant:" + corp[i]["name"], data, ops))
@@ -157,6 +205,8 @@ def body(ms, col):
     lab = [facts["outcome"], "members:%d" % len(real)]
     if any(n.startswith("mutant") for n in names):
         lab.append("has_mutant")
+    if any(n.startswith("overversion") for n in names):
+        lab.append("has_overversion_member")
     if facts.get("first_bad") is not None:
         lab.append("nonconformant_member_at:%d" % facts["first_bad"])
     if facts["class_changed"]:
